@@ -33,8 +33,10 @@ CONSTANTS NV,            \* development versions are 1..NV (in cascade order)
           ReportFine,    \* TRUE: CI reports per commit; FALSE: per pull request / per queued PR
           AutoApprove,   \* TRUE: pull requests are opened already approved
           Opts,          \* option comments that may be posted: subset of {"byp","wait","unwait","nooct"}
+          ReportOnce,    \* TRUE: a commit's build status is reported at most once (exhaustive configs)
           MaxLevel,      \* bound on the length of behaviours (state constraint)
           EmitJson,      \* TRUE: carry the JSON projection of each state in `out` (simulation)
+          AtomicPush,    \* TRUE: named pushes are atomic (repaired code: git push --atomic)
           FixSelect,     \* TRUE: queue selection iterates to a fixpoint (repaired code)
           FixDirect      \* TRUE: no_octopus direct merge merges the w/ branch first (repaired code)
 
@@ -420,7 +422,7 @@ OpenPR(p, dst) ==
   /\ UNCHANGED <<child, bs, greeted, job>>
 
 PushSrc(p) ==
-  /\ Idle /\ pr[p].st = "open" /\ SrcN(p) \in DOMAIN refs
+  /\ Idle /\ pr[p].st \in {"open", "merged"} /\ SrcN(p) \in DOMAIN refs
   /\ LET g2 == NewCommit(G, {refs[SrcN(p)]}, "user")
      IN /\ G' = g2
         /\ refs' = Set(refs, SrcN(p), g2.n)
@@ -452,7 +454,7 @@ Reportable == {refs[n] : n \in {x \in DOMAIN refs : Kind(x) \in {"src", "w", "q"
 EvalCommits == IF ReportFine THEN Reportable
                ELSE {refs[n] : n \in {x \in DOMAIN refs : Kind(x) = "q"}}
 Report(c, s) ==
-  /\ ReportFine /\ Idle /\ c \in Reportable /\ Status(c) # s
+  /\ ReportFine /\ Idle /\ c \in Reportable /\ Status(c) # s /\ (ReportOnce => c \notin DOMAIN bs)
   /\ bs' = Set(bs, c, s)
   /\ last' = <<"report", c, s>>
   /\ UNCHANGED <<G, refs, pr, child, greeted, job>>
@@ -461,7 +463,8 @@ PrTips(p) == {refs[n] : n \in {x \in DOMAIN refs : (Kind(x) \in {"src", "w"}) /\
 QwTips(p) == {refs[n] : n \in {x \in DOMAIN refs : Kind(x) = "qw" /\ x[2] = p}}
 ReportSet(tag, p, S, s) ==
   /\ ~ ReportFine /\ Idle /\ S # {} /\ \E c \in S : Status(c) # s
-  /\ bs' = [c \in DOMAIN bs \cup S |-> IF c \in S THEN s ELSE bs[c]]
+  /\ ReportOnce => S \ DOMAIN bs # {}
+  /\ bs' = [c \in DOMAIN bs \cup S |-> IF c \in S /\ (~ ReportOnce \/ c \notin DOMAIN bs) THEN s ELSE bs[c]]
   /\ last' = <<tag, p, s>>
   /\ UNCHANGED <<G, refs, pr, child, greeted, job>>
 
@@ -473,8 +476,9 @@ ReportSet(tag, p, S, s) ==
 Accepts(g, r, rej, n, c) == n \notin rej /\ (n \notin DOMAIN r \/ Leq(g, r[n], c))
 ApplyPush(g, r, rej, op) ==
   LET ok == {n \in op.names : Accepts(g, r, rej, n, op.loc[n])}
-  IN [refs |-> [n \in DOMAIN r \cup ok |-> IF n \in ok THEN op.loc[n] ELSE r[n]],
-      fail |-> ok # op.names]
+  IN IF AtomicPush /\ ok # op.names THEN [refs |-> r, fail |-> TRUE]
+     ELSE [refs |-> [n \in DOMAIN r \cup ok |-> IF n \in ok THEN op.loc[n] ELSE r[n]],
+           fail |-> ok # op.names]
 ApplyPushAll(g, r, rej, op) ==     \* git push --all --atomic [--prune]
   LET heads == DOMAIN op.loc
       changed == {n \in heads : n \notin DOMAIN r \/ r[n] # op.loc[n]}
@@ -497,18 +501,24 @@ RunPlan(g, st, plan) ==
   IF plan = <<>> \/ st.fail THEN st ELSE RunPlan(g, OpEffect(g, st, {}, Head(plan)), Tail(plan))
 Cur == [refs |-> refs, child |-> child, greeted |-> greeted, fail |-> FALSE]
 
+\* a pull request whose source is contained in its destination is closed (MERGED) for good
+Latch(g, r) == [p \in 1..NP |->
+                  IF pr[p].st = "open" /\ SrcN(p) \in DOMAIN r /\ BN(pr[p].dst) \in DOMAIN r
+                     /\ Leq(g, r[SrcN(p)], r[BN(pr[p].dst)])
+                  THEN [pr[p] EXCEPT !.st = "merged"] ELSE pr[p]]
 Begin(kind, arg, e) ==
   /\ G' = e.g
   /\ IF Atomic
      THEN LET st == RunPlan(e.g, Cur, e.plan)
           IN /\ refs' = st.refs /\ child' = st.child /\ greeted' = st.greeted
              /\ job' = NoJob
+             /\ pr' = Latch(e.g, st.refs)
              /\ last' = <<"job", kind, arg, IF st.fail THEN "PushFailedException" ELSE e.status, e.pend>>
      ELSE /\ job' = [on |-> TRUE, kind |-> kind, arg |-> arg, plan |-> e.plan, status |-> e.status,
                      rej |-> {}, tp |-> 0]
           /\ last' = <<"job_begin", kind, arg, e.status, e.pend>>
-          /\ UNCHANGED <<refs, child, greeted>>
-  /\ UNCHANGED <<pr, bs>>
+          /\ UNCHANGED <<refs, child, greeted, pr>>
+  /\ UNCHANGED bs
 
 JobBegin ==
   /\ Idle
@@ -530,8 +540,9 @@ ApplyOp ==
 JobEnd ==
   /\ job.on /\ job.plan = <<>>
   /\ job' = NoJob
+  /\ pr' = Latch(G, refs)
   /\ last' = <<"job_end", job.kind, job.arg, job.status>>
-  /\ UNCHANGED <<G, refs, pr, child, bs, greeted>>
+  /\ UNCHANGED <<G, refs, child, bs, greeted>>
 
 (* faults and third parties, only inside a job, at most one per job *)
 Crash ==
@@ -590,9 +601,9 @@ Bound == G.n <= MaxC /\ TLCGet("level") <= MaxLevel
 (* Design-level properties                                                 *)
 (***************************************************************************)
 DestNames == {BN(b) : b \in Branches}
-InclS == \A j \in 1..(Len(Casc) - 1) :
-           (BN(Casc[j]) \in DOMAIN refs /\ BN(Casc[j + 1]) \in DOMAIN refs)
-              => Leq(G, refs[BN(Casc[j])], refs[BN(Casc[j + 1])])
+InclPairs == {<<Dev(v), Dev(v + 1)>> : v \in 1..(NV - 1)} \cup {<<Stab(v), Dev(v)>> : v \in StabV}
+InclS == \A x \in InclPairs :
+           (BN(x[1]) \in DOMAIN refs /\ BN(x[2]) \in DOMAIN refs) => Leq(G, refs[BN(x[1])], refs[BN(x[2])])
 C01_Incl == Idle => InclS
 UserCommitsOf(p) == {c \in 1..G.n : G.lab[c] = "user" /\ SrcN(p) \in DOMAIN refs /\ Leq(G, c, refs[SrcN(p)])
                                     /\ ~ \E b \in Branches : FALSE}
